@@ -32,8 +32,9 @@ def required_cells(tier):
             req["kind:%s/style-%s" % (k, st)] = 40 if q else 800
     for v in ("zero", "axis", "generic", "own-direction"):
         req["vector:" + v] = 100
-    for p in ("in", "intersection", "eq-hash", "measure", "scalar-query", "there-and-back"):
+    for p in ("in", "intersection", "eq-hash", "measure", "scalar-query", "there-and-back", "deepcopy-interleaved"):
         req["probe:" + p] = 200
+    req["receiver:derived-by-negation"] = 100
     return req
 
 
@@ -82,7 +83,9 @@ def cases(rng, budget, widx, nworkers, tier):
         for j in range(len(moves)):
             if own and rng.random() < 0.3:
                 moves[j] = K.mul(rng.choice(own), rng.choice((1, -1, 2, F(1, 2), F(-1, 2), 3)))
-        yield {"d": d, "style": style, "moves": moves, "ls": rng.getrandbits(30), "ps": rng.getrandbits(30)}
+        yield {"d": d, "style": style, "moves": moves, "ls": rng.getrandbits(30), "ps": rng.getrandbits(30),
+               "neg": rng.random() < 0.3, "copy_at": [j for j in range(len(moves)) if rng.random() < 0.25],
+               "switch": rng.random() < 0.3}
 
 
 def _vclass(v):
@@ -201,12 +204,26 @@ def judge(case):
     mu = core.Multi()
     mu.cell("kind:%s/style-%s" % (k, style))
     obj = lift(d, random.Random(case["ls"]))
+    if case.get("neg") and k in ("PG", "PL"):
+        # a receiver obtained by negation: the same set, but an object wired by another code path
+        obj = -(-obj) if k == "PG" else -obj
+        mu.cell("receiver:derived-by-negation")
+    copies = []          # (deep copy, descriptor it denoted when it was taken)
     prng = random.Random(case["ps"])
     measures0 = {n: getattr(obj, n)() for n in ("length", "area", "volume") if hasattr(obj, n) and k in ("S", "PG", "PH")}
     cur = d
-    for v in case["moves"]:
+    for step_no, v in enumerate(case["moves"]):
         if mu.viol is not None:
             break
+        if step_no in case.get("copy_at", ()):
+            c, e, _ = M.call(copy.deepcopy, obj, pure=False)
+            if e is None:
+                mu.cell("probe:deepcopy-interleaved")
+                copies.append((c, cur))
+                if case.get("switch") and style == "A":
+                    # continue the history on the copy; the original must stay where it is
+                    copies[-1] = (obj, cur)
+                    obj = c
         mu.cell("vector:" + _vclass(v))
         if any(K.cross(v, w) == (0, 0, 0) and v != (0, 0, 0) for w in _own_vectors(cur)):
             mu.cell("vector:own-direction")
@@ -228,6 +245,11 @@ def judge(case):
         else:
             _probe(G, mu, "returned", ret, fresh, cur, prng, k, measures0)
             obj = ret
+        for c, dc in copies:
+            same, why = same_set(lower(c), dc)
+            if not same or M.invariants(c):
+                mu.fail("%s:deepcopy-follows-the-moved-object" % k, "a deep copy taken earlier changed when the other object was moved: %s" % (why or M.invariants(c)[0]))
+                break
     if mu.viol is None:
         mu.cell("probe:there-and-back")
         w = case["moves"][-1]
